@@ -173,10 +173,34 @@ def _step(a, q, qs, q0ux):
                 "factors": {k: float(hr[k][0]) for k in uc.DIMS},
                 "symbols": {k: str(hr[k][1]) for k in uc.DIMS}}, None
     if op == "bexp":
-        o = uc.observe(cu.Backend("math").exp, q)
+        import quantities as pq
+        mult = [float(Fraction(*m)) for m in a["mults"]]
+        form = a["form"]
+        if form == "quantity":
+            arg = q
+        elif form == "unit":
+            arg = q.units
+        elif form == "uncertain":
+            arg = pq.UncertainQuantity(float(q.magnitude), q.units, abs(float(q.magnitude)) * 0.01)
+        elif form == "list":
+            arg = [m * q for m in mult]
+        elif form == "array":
+            arg = np.array(mult) * q
+        elif form == "objarray":
+            arg = np.empty(len(mult), dtype=object)
+            for i, m in enumerate(mult):
+                arg[i] = m * q
+        elif form == "mixed":
+            arg = [[q, 1], [3, 4]]
+        else:
+            raise ValueError(form)
+        be = cu.Backend("math" if a["be"] == "math" else np)
+        kw = {"axis": 1} if form == "mixed" else {}
+        with np.errstate(all="ignore"):
+            o = uc.observe(getattr(be, a["fn"]), arg, **kw)
         if "raised" in o:
             return {"raised": True, "exc": o["raised"]}, None
-        return {"raised": False, "value": float(o["v"])}, None
+        return {"raised": False, "value": uc.floats(o["v"])}, None
     if op == "helper":
         return _helper(a["name"], a, qs), None
     raise ValueError(op)
@@ -282,20 +306,33 @@ def judge(a, obs, e, gv, tol10, htol10):
                 return "unit-dimension"
             if not uc.close(obs["units"][k]["si"], uc.scale_num(e["units"][k]["scale"], gv), tol10):
                 return "unit-size"
-            if not uc.close(obs["factors"][k], uc.num(e["factor"], gv), tol10):
+            if not uc.close(obs["factors"][k], uc.num(e["factor"][k], gv), tol10):
                 return "factor"
         return None
     if op == "bexp":
         if e["raise"]:
             return None if obs["raised"] else "missing-raise"
-        x = float(uc.num(e["x"], gv))
-        try:
-            want = math.exp(x)
+        import numpy as np
+        vals = np.array([float(uc.num(v, gv)) for v in e["vals"]])
+        try:   # the plain routine on the pure values
+            with np.errstate(all="ignore"):
+                if a["fn"] == "exp":
+                    want = [math.exp(v) for v in vals] if a["be"] == "math" else list(np.exp(vals))
+                else:
+                    want = list(np.atleast_1d(np.sum(vals.reshape(e["rows"], -1), axis=1 if e["rows"] > 1 else None)))
         except OverflowError:
             return None if obs["raised"] else "missing-raise"
         if obs["raised"]:
             return "unexpected-raise"
-        return None if uc.close(obs["value"], Fraction(want), htol10) else "value"
+        if len(want) != len(obs["value"]):
+            return "shape"
+        for w, o in zip(want, obs["value"]):
+            if not math.isfinite(w):
+                if math.isfinite(o):
+                    return "value"
+            elif not uc.close(o, Fraction(float(w)), htol10):
+                return "value"
+        return None
     if op == "helper":
         name = a["name"]
         if name == "compare_equality" and e["same"]:
@@ -359,11 +396,15 @@ def _key(case, i, a, clause):
         key["kind"] = a["kind"]
     if a["op"] == "plain":
         key.update(_plain_key(a))
+    if a["op"] == "bexp":
+        key.update(be=a["be"], call=a["fn"], form=a["form"])
     if a["op"] == "derived":
         key["key"] = a["key"]
     if a["op"] == "roundtrip":
         key["amount"] = a["reg"]["amount"]
         key["length"] = a["reg"]["length"]
+    if "reg" in a:
+        key["registry"] = "scaled-entries" if a["reg"].get("factors") else "unit-objects"
     return key
 
 
@@ -406,17 +447,17 @@ def trace_of(cin, obs):
         elif op == "dimensionality":
             e.update(dim={k: o["dim"].get(k, 0) for k in uc.DIMS}, extra=sorted(set(o["dim"]) - set(uc.DIMS)))
         elif op in ("defunit", "derived"):
-            e.update(reg={k: a["reg"][k] for k in uc.DIMS}, dim={k: o["dim"].get(k, 0) for k in uc.DIMS}, si=_enc(o["si"]))
+            e.update(reg=uc.reg_event(a["reg"]), dim={k: o["dim"].get(k, 0) for k in uc.DIMS}, si=_enc(o["si"]))
             if op == "derived":
                 e["key"] = a["key"]
         elif op == "unitless":
-            e.update(reg={k: a["reg"][k] for k in uc.DIMS}, x=_enc(o["x"]))
+            e.update(reg=uc.reg_event(a["reg"]), x=_enc(o["x"]))
         elif op == "roundtrip":
-            e.update(reg={k: a["reg"][k] for k in uc.DIMS},
+            e.update(reg=uc.reg_event(a["reg"]),
                      units=[{"d": k, "dim": {kk: o["units"][k]["dim"].get(kk, 0) for kk in uc.DIMS},
                              "si": _enc(o["units"][k]["si"]), "factor": _enc(o["factors"][k])} for k in uc.DIMS])
         elif op == "bexp":
-            e.update(raised=bool(o["raised"]), exc=o.get("exc", ""))
+            e.update(be=a["be"], fn=a["fn"], form=a["form"], raised=bool(o["raised"]), exc=o.get("exc", ""))
         else:
             continue
         ev.append(e)
@@ -484,9 +525,19 @@ class Gen(object):
         return {"magq": self.rational(), "ux": [], "ops": ops}
 
     def history(self):
-        if self.r.random() < 0.12:
+        x = self.r.random()
+        if x < 0.12:
             return self.plain_history()
-        ux = self.uexpr(self.max_factors)
+        if x < 0.2:   # a dimensionless ratio of two units of one dimension (the Backend then has a value to pass on)
+            by = {}
+            for nm, d in self.cat.items():
+                if any(d):
+                    by.setdefault(tuple(d), []).append(nm)
+            names = self.r.choice(sorted(v for v in by.values() if len(v) >= 2))
+            n1, n2 = self.r.sample(sorted(names), 2)
+            ux = [{"n": n1, "p": 1}, {"n": n2, "p": -1}]
+        else:
+            ux = self.uexpr(self.max_factors)
         mag = self.rational()
         ops = []
         cur = ux
@@ -516,6 +567,12 @@ class Gen(object):
                 ops.append({"op": k, "reg": self.r.choice(self.regs)})
             elif k == "derived":
                 ops.append({"op": k, "reg": self.r.choice(self.regs), "key": self.r.choice(self.keys)})
+            elif k == "bexp":
+                be, fn, form = self.r.choice([("math", "exp", "quantity"), ("math", "exp", "unit"), ("math", "exp", "uncertain"),
+                                              ("numpy", "exp", "quantity"), ("numpy", "exp", "unit"), ("numpy", "exp", "uncertain"),
+                                              ("numpy", "exp", "list"), ("numpy", "exp", "array"), ("numpy", "exp", "objarray"),
+                                              ("numpy", "sum", "list"), ("numpy", "sum", "array"), ("numpy", "sum", "mixed")])
+                ops.append({"op": "bexp", "be": be, "fn": fn, "form": form, "mults": [[1, 1], [2, 1], [-3, 2]]})
             else:
                 ops.append({"op": k})
         return {"magq": mag, "ux": ux, "ops": ops}
@@ -606,6 +663,8 @@ def run(ctx):
         key = {"fn": _fn_of({"op": opname}), "op": opname, "clause": clause}
         if opname == "plain" and "form" in a:
             key.update(_plain_key(a))
+        if opname == "bexp" and "form" in a:
+            key.update(be=a["be"], call=a["fn"], form=a["form"])
         if opname == "roundtrip":
             reg = a.get("reg", {})
             key["amount"] = reg.get("amount")
